@@ -20,8 +20,10 @@ fn expected(ver: &str, status: u16, len_known: bool, len: usize, thr: usize, te:
 }
 fn main() {
     let mut bad = Vec::new();
-    let tes: [Option<&str>; 9] = [None, Some("chunked"), Some("identity"), Some("trailers"), Some("identity;q=0.5, chunked;q=0.9"), Some("chunked;q=0, identity"),
-        Some("CHUNKED"), Some("identity;q=0.0005"), Some("x;q=NaN, chunked")];
+    let tes: [Option<&str>; 13] = [None, Some("chunked"), Some("identity"), Some("trailers"), Some("identity;q=0.5, chunked;q=0.9"), Some("chunked;q=0, identity"),
+        Some("CHUNKED"), Some("identity;q=0.0005"), Some("x;q=NaN, chunked"),
+        // a coding the server does not support is skipped, wherever it stands in the preference order (no ties here: the property does not rank them)
+        Some("gzip, chunked;q=0.5"), Some("deflate;q=0.9, identity;q=0.2"), Some("trailers, chunked;q=0.8"), Some("gzip;q=1.0, identity;q=0.5, chunked;q=0.1")];
     for ver in ["1.0", "1.1"] { for status in [200u16, 204, 304, 404] { for (known, len) in [(true, 0usize), (true, 5), (true, 40), (false, 7)] { for thr in [0usize, 10, 32768] { for te in tes.iter() {
         let server = tiny_http::Server::http("127.0.0.1:0").unwrap();
         let mut c = connect(&server);
